@@ -32,6 +32,8 @@ enum Scenario {
     Snap { name: &'static str, is128: bool },
     /// tape with autoload (real time or fast)
     TapeLoad { is128: bool, fast: bool },
+    /// interrupt-driven idle loop (EI; HALT; record R; ...) at `base`, `pad` NOPs shift its phase
+    HaltLoop { is128: bool, base: u16, pad: u8 },
 }
 
 #[derive(Clone, Debug, PartialEq)]
@@ -123,7 +125,7 @@ fn random_input(rng: &mut Rng) -> Input {
 
 fn build(scn: &Scenario, asset: AssetKind, tag: u64) -> Machine {
     let is128 = match scn {
-        Scenario::Boot { is128 } | Scenario::Program { is128, .. } | Scenario::Snap { is128, .. } | Scenario::TapeLoad { is128, .. } => *is128,
+        Scenario::Boot { is128 } | Scenario::Program { is128, .. } | Scenario::Snap { is128, .. } | Scenario::TapeLoad { is128, .. } | Scenario::HaltLoop { is128, .. } => *is128,
     };
     let mut cfg = Cfg::of(is128);
     cfg.ay = true;
@@ -163,14 +165,47 @@ fn build(scn: &Scenario, asset: AssetKind, tag: u64) -> Machine {
                 i += 1 + rng.below(6) as usize;
             }
             // never leave RAM for long: a jump back at the end
+            // the program sits in uncontended RAM, in contended RAM (0x5B00.., so that HALTs, loops
+            // and I/O are stretched by the ULA) or, on the 128K, in a contended bank paged at 0xC000
+            let base: u16 = match rng.below(4) {
+                0 => 0x5B00,
+                1 if is128 => 0xC000,
+                _ => 0x8000,
+            };
+            if base == 0xC000 {
+                m.out(0x7FFD, *rng.pick(&[1u8, 3, 5, 7]));
+            }
             let n = code.len();
             code[n - 3] = 0xC3;
-            code[n - 2] = 0x00;
-            code[n - 1] = 0x80;
-            m.poke_bytes(0x8000, &code);
+            code[n - 2] = base as u8;
+            code[n - 1] = (base >> 8) as u8;
+            m.poke_bytes(base, &code);
             let mut rf = RegFile::default();
-            rf.pc = 0x8000;
-            rf.sp = 0x7F00;
+            rf.pc = base;
+            rf.sp = if base == 0x8000 { 0x7F00 } else { 0xBF00 };
+            rf.im = 1;
+            rf.iff1 = true;
+            rf.iff2 = true;
+            rf.iy = 0x5C3A;
+            m.set_regs(&rf);
+        }
+        Scenario::HaltLoop { base, pad, .. } => {
+            if *base >= 0xC000 && is128 {
+                m.out(0x7FFD, 0x10 | if *pad % 2 == 0 { 1 } else { 0 });
+            } else if is128 {
+                m.out(0x7FFD, 0x10);
+            }
+            // loop: EI; NOP*pad; HALT; LD A,R; LD (HL),A; INC L; IN A,(0xFE); OUT (0xFE),A; JR loop
+            let mut code = vec![0xFB];
+            code.extend(std::iter::repeat(0x00).take(*pad as usize));
+            code.extend_from_slice(&[0x76, 0xED, 0x5F, 0x77, 0x2C, 0xDB, 0xFE, 0xD3, 0xFE]);
+            let back = -(code.len() as i32 + 2);
+            code.extend_from_slice(&[0x18, back as u8]);
+            m.poke_bytes(*base, &code);
+            let mut rf = RegFile::default();
+            rf.pc = *base;
+            rf.sp = 0xBF00;
+            rf.hl = 0x9800;
             rf.im = 1;
             rf.iff1 = true;
             rf.iff2 = true;
@@ -345,7 +380,8 @@ struct St {
 
 fn one_tuple(ctx: &Ctx, rng: &mut Rng, st: &mut St, case: u64) {
     let is128 = rng.bool();
-    let scn = match rng.below(7) {
+    let scn = match rng.below(8) {
+        7 => Scenario::HaltLoop { is128, base: *rng.pick(&[0x6000u16, 0x5CCB, 0x7FF8, 0x8000, 0xC000]), pad: rng.below(8) as u8 },
         0 => Scenario::Boot { is128 },
         1 | 2 => Scenario::Program { is128, seed: rng.next() },
         3 => Scenario::Snap { name: "sound.48k.sna.gz", is128: false },
@@ -413,6 +449,14 @@ fn one_tuple(ctx: &Ctx, rng: &mut Rng, st: &mut St, case: u64) {
         if matches!(scn, Scenario::TapeLoad { .. }) {
             if let Some(i) = alts.iter().position(|a| a.0 == "breaks-at-pcs") {
                 alts.swap(0, i);
+            }
+        }
+        // halting loops are what speed modes may shortcut: keep Max mode and FrameCount(n)
+        if matches!(scn, Scenario::HaltLoop { .. }) {
+            for (slot, name) in ["max-mode", "partition"].iter().enumerate() {
+                if let Some(i) = alts.iter().position(|a| a.0 == *name) {
+                    alts.swap(slot, i);
+                }
             }
         }
         alts.truncate(5);
